@@ -9,7 +9,9 @@ L2  correspondence (vm_compute): for every message class, in-domain values with 
 L3  monitors = the property text on the implementation: deserialize(serialize(m)) == m through the
     family dispatcher, length prefix = number of bytes that follow, bytes == the bytes the PINNED
     layout prescribes (independent reference encoder driven by pinned/layout.json), the
-    maintainers' vectors still reproduced, decode(encode(x)) == x for all lengths / keys.
+    maintainers' vectors still reproduced, decode(encode(x)) == x for all lengths / keys, and wire composition:
+    whatever send_message / queue_message / queue_messages (1..5 messages) write on plain and obfuscated
+    connections parses (independent receiver) into exactly the sent messages, in order.
 """
 from __future__ import annotations
 
@@ -389,6 +391,155 @@ def coq_strings(cases) -> list:
 
 
 # ----------------------------------------------------------------------------------------
+# wire composition through the real send paths (DataConnection.send_message / queue_message / queue_messages)
+
+SEND_TABLES = {'peer': ('peer', 'request'), 'server': ('server', 'request'), 'distributed': ('distributed', 'request'),
+               'init': ('peer_init', 'request')}
+
+
+def ref_split_wire(wire: bytes, obf: bool):
+    """Independent receiver: split what was written into frames and de-obfuscate each with the pinned
+    algorithm (XOR stream is its own inverse).  -> list of plain frames, or None when the bytes do not
+    parse as a whole number of frames."""
+    out, pos = [], 0
+    while pos < len(wire):
+        if obf:
+            if pos + 8 > len(wire):
+                return None
+            key = wire[pos:pos + 4]
+            ln = int.from_bytes(ref_obf_encode(key, wire[pos + 4:pos + 8])[4:], 'little')
+            end = pos + 8 + ln
+            if end > len(wire):
+                return None
+            out.append(ref_obf_encode(key, wire[pos + 4:end])[4:])
+        else:
+            if pos + 4 > len(wire):
+                return None
+            end = pos + 4 + int.from_bytes(wire[pos:pos + 4], 'little')
+            if end > len(wire):
+                return None
+            out.append(wire[pos:end])
+        pos = end
+    return out
+
+
+def send_case(play: dict, conn_kind: str, obf: bool, path: str, items: list) -> dict:
+    """items: [(message dict, vals)].  Sends them through the real connection; returns the written bytes and
+    the problems found by the property text (every frame written decodes to the same messages, in order)."""
+    import asyncio
+    from vlib import vloop, fakes
+    from aioslsk.network.connection import ServerConnection, PeerConnection, PeerConnectionType
+    res = {'conn': conn_kind, 'obf': obf, 'path': path, 'items': [(m['name'], v) for m, v in items], 'wire': None, 'problems': []}
+    loop = vloop.new_loop()
+    net = fakes.FakeNet().install()
+    try:
+        class Stub:
+            async def on_message_received(self, message, connection):
+                pass
+
+            async def on_state_changed(self, state, connection, close_reason=None):
+                pass
+        ep = fakes.Endpoint(net)
+        net.connect_handler = lambda h, p: ep
+        if conn_kind == 'server':
+            conn = ServerConnection('server.test', 2416, Stub(), obfuscated=obf)
+        else:
+            ctype = PeerConnectionType.DISTRIBUTED if conn_kind == 'distributed' else PeerConnectionType.PEER
+            conn = PeerConnection('10.0.0.9', 40000, Stub(), obfuscated=obf, connection_type=ctype)
+        loop.run_coro(conn.connect())
+        objs = [L.make_obj(play, m, v) for m, v in items]
+
+        async def go():
+            if path == 'send_message':
+                for o in objs:
+                    await conn.send_message(o)
+            elif path == 'queue_message':
+                await asyncio.gather(*[conn.queue_message(o) for o in objs])
+            else:
+                await asyncio.gather(*conn.queue_messages(*objs))
+        try:
+            loop.run_coro(go())
+        except Exception as e:
+            res['problems'].append(f'send raised {type(e).__name__}: {e}')
+            return res
+        wire = bytes(ep.written)
+        res['wire'] = wire
+        frames = ref_split_wire(wire, bool(conn.obfuscated))
+        res['eff_obf'] = bool(conn.obfuscated)
+        if frames is None or len(frames) != len(objs):
+            res['problems'].append(f'the written bytes parse as {None if frames is None else len(frames)} frames, {len(objs)} messages were sent')
+            return res
+        for i, (fr, o, (m, v)) in enumerate(zip(frames, objs, items)):
+            if fr != o.serialize():
+                res['problems'].append(f'frame {i + 1} ({m["name"]}) on the wire is not the serialised message after de-obfuscation')
+                break
+            try:
+                back = family_deserialize(m, fr)
+            except Exception as e:
+                back = None
+            if back != o:
+                res['problems'].append(f'frame {i + 1} ({m["name"]}) does not decode to the message that was sent')
+                break
+        return res
+    finally:
+        net.uninstall()
+        vloop.close_loop(loop)
+
+
+def send_path_cases(run: Run, play: dict, n_random: int) -> list:
+    out = []
+    combos = [('peer', False), ('peer', True), ('init', True), ('init', False), ('server', False), ('server', True), ('distributed', False)]
+    for conn_kind, obf in combos:
+        fam, d = SEND_TABLES[conn_kind]
+        tbl = [m for m in play['messages'] if m['family'] == fam and m['dir'] == d and not m['compressed']]
+        for path in ('send_message', 'queue_message', 'queue_messages'):
+            for k in ([1, 3] + [run.rng.choice([2, 4, 5]) for _ in range(n_random)]):
+                items = []
+                for _ in range(k):
+                    m = run.rng.choice(tbl)
+                    items.append((m, L.gen_message(run.rng, play, m, run.rng.choice(['full', 'mixed', 'nonascii']))))
+                r = send_case(play, 'peer' if conn_kind == 'init' else conn_kind, obf, path, items)
+                r['table'] = (fam, d)
+                run.case({'send': [conn_kind, obf, path, r['items']]}, nontrivial=k > 1, kind=f'send-path/{path}/{"obf" if obf else "plain"}')
+                if r['problems']:
+                    run.add_finding(Finding(f'send-path:{path}:{"obfuscated" if obf else "plain"}',
+                                            f'{path} of {k} message(s) on a{"n obfuscated" if obf else " plain"} {conn_kind} connection: {r["problems"][0]}',
+                                            {'kind': 'send-path', 'conn': r['conn'], 'obf': obf, 'path': path, 'table': [fam, d],
+                                             'messages': [[n, v] for n, v in r['items']]},
+                                            observed=r['wire'].hex()[:600] if r['wire'] else None))
+                out.append(r)
+    return out
+
+
+def coq_send_cases(cases: list, cur: dict) -> list:
+    """Model receiver: C02's run_stream + C01's dispatch on the bytes the real connection wrote."""
+    cm = L.msg_by_name(cur)
+    rows = []
+    for i, r in enumerate(cases):
+        if r['wire'] is None or any(n not in cm for n, _ in r['items']):
+            continue
+        fam, d = r['table']
+        exp = '; '.join(f'("{n}"%string, {L.coq_msg(cur, cm[n], v)})' for n, v in r['items'])
+        rows.append(f' ({i}%nat, ({"true" if r["eff_obf"] else "false"}, ({L.FAMILY_COQ[fam]}, {"DRequest" if d == "request" else "DResponse"}), '
+                    f'{L.coq_bytes(r["wire"])}, [{exp}]))')
+    shards = []
+    for k in range(0, len(rows), 60):
+        shards.append(L.CASES_PRELUDE + 'From Slsk Require Import C02.Model.\n'
+                      'Definition nod (x : bytes) : option bytes := Some x.\n'
+                      'Definition D (fd : family * direction) (bs : bytes) : option (string * list value) :=\n'
+                      ' match dispatch nod (table all_schemas (fst fd) (snd fd)) (gen_fam_width (fst fd)) bs with\n'
+                      ' | Some (s, m) => Some (sname s, m) | None => None end.\n'
+                      'Fixpoint dl_eqb (a b : list (string * list value)) : bool := match a, b with\n'
+                      ' | [], [] => true | (n, m) :: a\', (n\', m\') :: b\' => andb (andb (String.eqb n n\') (values_eqb m m\')) (dl_eqb a\' b\') | _, _ => false end.\n'
+                      'Definition cases : list (nat * (bool * (family * direction) * bytes * list (string * list value))) := [\n' + ';\n'.join(rows[k:k + 60]) + '].\n'
+                      'Definition bad (c : bool * (family * direction) * bytes * list (string * list value)) : bool := let \'(obf, fd, w, e) := c in\n'
+                      ' let \'(frames, rest) := run_stream obf [] [w] in\n'
+                      ' negb (andb (dl_eqb (deliveries obf (D fd) frames) e) (Nat.eqb (List.length rest) 0)).\n'
+                      'Eval vm_compute in (indices_where bad cases).\n')
+    return shards
+
+
+# ----------------------------------------------------------------------------------------
 def vectors_check(run: Run, play: dict, cur, pin: dict):
     """The maintainers' byte vectors: (a) the pinned layout reproduces them (anchor of the pin),
     (b) the implementation still does (monitor), (c) returned as cases for the model."""
@@ -477,7 +628,7 @@ def run(run: Run):
                     'translate/tr_messages.py, translate/tr_obf.py; source fingerprints of the procedural codec functions']
     run.assumptions += ['field values within the wire domain (predicate `canonical` of C01/Model.v; generated values are checked '
                         'against it by canonicalb)', 'message body shorter than 2^32 bytes']
-    proved = run.prove(['tr_obf', 'tr_messages'], extra_targets=['theories/C01/Eval.vo'])
+    proved = run.prove(['tr_obf', 'tr_messages'], extra_targets=['theories/C01/Eval.vo', 'theories/C02/Model.vo'])
     model_ok = (common.COQ / 'theories' / 'C01' / 'Eval.vo').exists() and (common.COQ / 'gen' / 'SchemaGen.vo').exists() and \
         not any(b[0].startswith('translator:') for b in run.broken)
 
@@ -551,6 +702,9 @@ def run(run: Run):
                                     '(other clients would read garbage beyond the first differing block)',
                                     {'kind': 'obf', 'key': keyh, 'data': datah}, observed=got.hex()[:300] if got else None, expected=wireh[:300]))
 
+    # --- the real send paths
+    sends = send_path_cases(run, play, 1 if run.tier == 'quick' else 8)
+
     # --- strings
     scases = string_cases(run, 80 if run.tier == 'quick' else 1500)
 
@@ -567,9 +721,11 @@ def run(run: Run):
                            if i < 900000 else f'explicit/garbage case {i - 900000}')),
             ('string/bytearr.deserialize vs dec TStr/TBytes', coq_strings(scases), 1,
              lambda w, i: f'frame={scases[i][0].hex()} impl={scases[i][1]} / {scases[i][2]}'),
+            ('bytes written by send_message/queue_message/queue_messages vs model receiver (run_stream + dispatch)', coq_send_cases(sends, cur), 1,
+             lambda w, i: json.dumps({k: sends[i][k] for k in ('conn', 'obf', 'path', 'items')}) + ' wire=' + (sends[i]['wire'] or b'').hex()[:400]),
         ]
         nb = eval_groups(run, 'c01', groups)
-        run.cov['traces_validated_against_impl'] = len(cases) + len(vec) + 601 * len(okeys) + len(garb) + len(scases) - nb
+        run.cov['traces_validated_against_impl'] = len(cases) + len(vec) + 601 * len(okeys) + len(garb) + len(scases) + len(sends) - nb
     else:
         if not run.broken:
             run.add_broken('correspondence:C01', 'model not built')
@@ -606,6 +762,14 @@ def replay(rep: dict) -> int:
         print('decode(encode) == data:', d == data)
         return 0 if (d == data and e == ref_obf_encode(key, data)) else 1
     pm = L.msg_by_name(play)
+    if kind == 'send-path':
+        items = [(pm[n], v) for n, v in wit['messages']]
+        r = send_case(play, wit['conn'], wit['obf'], wit['path'], items)
+        print(f"{wit['path']} of {len(items)} message(s), obfuscated={wit['obf']}, connection={wit['conn']}")
+        print('wire:', r['wire'].hex()[:800] if r['wire'] else None)
+        for p in r['problems']:
+            print('FAILS:', p)
+        return 1 if r['problems'] else 0
     m = pm[wit['class']]
     if kind == 'vector':
         obj = L.make_obj(play, m, wit['vals'])
